@@ -436,6 +436,21 @@ def make_module(I):
             return a[0]
         raise Unsupported("np.dtype of this operand")
     ns["dtype"] = Native("np.dtype", _dtype)
+
+    def _issubdtype(I_, a, k):
+        dt, kind = a[0], a[1]
+        if not isinstance(dt, DType) or not isinstance(kind, Class) or kind.name not in ("integer", "floating", "signedinteger", "unsignedinteger"):
+            raise Unsupported("np.issubdtype of these operands")
+        if kind.name == "integer":
+            return is_int_ctype(dt.name)
+        if kind.name == "floating":
+            return is_float_ctype(dt.name)
+        if kind.name == "unsignedinteger":
+            return is_int_ctype(dt.name) and dt.name.startswith("u")
+        return is_int_ctype(dt.name) and not dt.name.startswith("u")
+    ns["issubdtype"] = Native("np.issubdtype", _issubdtype)
+    ns["signedinteger"] = Class("signedinteger", (), {}, None, "builtin")
+    ns["unsignedinteger"] = Class("unsignedinteger", (), {}, None, "builtin")
     ns["array"] = Native("np.array", _array)
     ns["asarray"] = Native("np.asarray", _asarray)
 
@@ -520,6 +535,11 @@ def make_module(I):
         if not (isinstance(x, SymArr) and getattr(x, "pred", None) is not None) or k or len(a) > 1:
             raise Unsupported("np.all / np.any of this operand")
         n = zint(x.shape[0])
+        nc = simp(n)
+        if isinstance(nc, int) and nc <= 4096:
+            vals = [simp(x.pred(z3.IntVal(i))) for i in range(nc)]
+            if all(isinstance(v, bool) for v in vals):
+                return all(vals) if every else any(vals)
         q = z3.Int("q!all")
         if every:
             return z3.ForAll([q], z3.Implies(z3.And(q >= 0, q < n), x.pred(q)))
